@@ -118,6 +118,8 @@ async def _run(k, fault):
                 extra = asyncio.ensure_future(closer())
             elif kind == 'raise':
                 what = f[1]
+                from ..apps import EXC_KINDS
+                world.exc_kind = EXC_KINDS[(k + len(what) + (0 if fault[1][0] == 'bytes' else 3)) % len(EXC_KINDS)]
                 if what == 'on_close-c':
                     p.handlers['c'].raise_in = ('on_close',)
                 elif what == 'on_close-s':
